@@ -473,6 +473,22 @@ def d54():
   return None if np.allclose(g, [4., -2 + 1*(2/3)]) else 'deriv %s' % g
 
 
+def d55():
+  out = []
+  c = np.array([1., 2., 0.5]); d = IDevice('i', 3, (0, 2), a=0.5, b=2, c=c)
+  x = np.array([0.5, 1.0, 1.5]); c0 = d.cost(x, 0); c *= -1
+  if abs(d.cost(x, 0) - c0) > 1e-12: out.append('IDevice c (cost %.4g -> %.4g)' % (c0, d.cost(x, 0)))
+  b = np.array([2., 2., 2.]); d = IDevice('i', 3, (0, 2), a=0.5, b=b, c=1); c0 = d.cost(x, 0); b += 1
+  if abs(d.cost(x, 0) - c0) > 1e-12: out.append('IDevice b')
+  k = np.array([1., 2., 0.]); g = GDevice('g', 3, (-2, 0), cost_coeffs=k); y = -x; c0 = g.cost(y, 0); k *= -1
+  if abs(g.cost(y, 0) - c0) > 1e-12: out.append('GDevice 1-D cost_coeffs (cost %.4g -> %.4g, deriv unchanged)' % (c0, g.cost(y, 0)))
+  k2 = [[1., 2., 0.]]*3; k2 = [list(r) for r in k2]; g = GDevice('g', 3, (-2, 0), cost_coeffs=k2); c0 = g.cost(y, 0); k2[0][0] = -5.
+  if abs(g.cost(y, 0) - c0) > 1e-12: out.append('GDevice 2-D cost_coeffs')
+  tc = np.array([1., 2., 3.]); t = TDevice('t', 3, (0, 2), 0.9, 1, 20, 20, 3, [10., 12., 8.], c=tc); c0 = t.cost(x, 0); tc *= -1
+  if abs(t.cost(x, 0) - c0) > 1e-12: out.append('TDevice c')
+  return ('parameters given as arrays/lists are kept by reference; editing the caller\'s object afterwards changes the accepted device with no validation: ' + '; '.join(out)) if out else None
+
+
 if __name__ == '__main__':
   names = [a for a in sys.argv[2:]] or sorted(k for k in globals() if k[0] == 'd' and k[1:3].isdigit())
   bad = 0
